@@ -178,9 +178,15 @@ func runCheck(repo, vdir, prop, tier string, workers int, only string, noReplay 
 			cfg.SolverTimeout = 5000
 			cfg.FallbackMs = 300000
 		}
-		if budget > 0 {
-			cfg.Deadline = time.Now().Add(budget)
+		hb := budget
+		if hb == 0 {
+			// default wall-clock budget per harness: exhausted => inconclusive, never a pass
+			hb = 15 * time.Minute
+			if tier == "thorough" {
+				hb = 90 * time.Minute
+			}
 		}
+		cfg.Deadline = time.Now().Add(hb)
 		res := interp.Explore(env, cfg, f)
 		results = append(results, res)
 		specs = append(specs, h)
